@@ -157,6 +157,8 @@ def check_struct(f, rep, name, parse_b, write_b, adt_suffix):
             # name_arr.copy_from_slice(name): array filled from the slot
             cp = [c for c in parse_b.calls() if c.decl.endswith("copy_from_slice")]
             okc = len(cp) == 1 and render(tbp.term(cp[0].args[1])) == slot
+            # ... or converted as a whole: `let name: [u8; N] = slot.try_into().unwrap()`
+            okc = okc or (not cp and re.fullmatch(r"(std::result::Result::<T, E>::(unwrap|expect)\()?std::convert::TryInto::try_into\(%s\)(<Ok>\.0)?(, .*)?\)?" % re.escape(slot), stored) is not None)
             rep.check(okc, "R2", "%s|slot%d|%s" % (name, i, oname), "slot %d (%s) copied into `%s`" % (i, oname, efield), "Lead::parse does not copy slot %d into `%s`" % (i, efield), parse_b.span)
             continue
         if slot is None and name == "Lead" and efield == "reserved":
@@ -351,6 +353,11 @@ def run(f, fixture, rep, cfg, tier):
         elif c.decl.endswith("write_index"):
             inloop = any(c.bb in blks for (_h, blks) in hw.loops())
             seq.append(("entry*" if inloop else "entry", render(tw.term(c.args[0]))))
+        elif c.decl in ("std::iter::Iterator::try_for_each", "std::iter::Iterator::for_each"):
+            # `self.index_entries.iter().try_for_each(|e| e.write_index(out))`: one entry per element, like the loop
+            from common import per_element_calls
+            for (_c2, a0) in per_element_calls(f, hw, c, r"write_index$"):
+                seq.append(("entry*", a0 + "<Some>.0" if a0.startswith("std::iter::Iterator::next(") and not a0.endswith("<Some>.0") else a0))
         elif c.decl == "std::io::Write::write_all":
             seq.append(("bytes", render(tw.term(c.args[1]))))
     want = [("intro", "self.index_header"), ("entry*", "std::iter::Iterator::next(self.index_entries)<Some>.0"), ("bytes", "self.store")]
@@ -532,9 +539,22 @@ def run(f, fixture, rep, cfg, tier):
         t = TermBuilder(b)
         cs = [c for c in b.calls() if c.decl == call]
         ok = False
+        PADN = r"usize\(rpm::headers::header::Header::<constants::IndexSignatureTag>::padding_required\("
         for c in cs:
             tt = render(t.term(c.args[1]))
             if "std::vec::from_elem(0_u8, usize(rpm::headers::header::Header::<constants::IndexSignatureTag>::padding_required(" in tt:
                 ok = True
+            # the first padding_required() bytes of a fixed buffer: `buf[..n]` / `buf[0..n]`; what the writer emits from must be zeroes
+            m = re.match(r"std::ops::Index(Mut)?::index(_mut)?\((.*), std::ops::(RangeTo::RangeTo\{|Range::Range\{0_usize, )" + PADN, tt)
+            if m:
+                zero = what == "skips"
+                for lf in b.origins(c.args[1], passthrough={}):
+                    if lf["kind"] == "call" and re.search(r"Index(Mut)?::index(_mut)?$", lf["call"].decl):
+                        for l2 in b.origins(lf["call"].args[0]):
+                            k2 = l2.get("k") or {}
+                            raw = (k2.get("alloc_chain") or [None])[-1] or k2.get("alloc")
+                            if l2["kind"] == "const" and raw and set(raw) == {"0"}:
+                                zero = True
+                ok = ok or zero
         rep.check(ok, "R6", "padding|%s" % fmt_key(b.path), "%s %s exactly padding_required() zero bytes" % (fmt_key(b.path), what),
                   "%s no longer %s a buffer of padding_required() bytes" % (b.path, what), b.span)
